@@ -220,3 +220,15 @@ b("b-c14-zero-count-after-lookup", "C14,C13,C12,C19,C20", [("src/helpers/syscall
 m("c01-adc-imm8-zero-extended", "C01", "src/instructions/adc.rs", "calculate_rm_imm![u16f; self; i; |d:u16, s:u16| {\n            let result = (d as u32).wrapping_add(s as u32).wrapping_add(u32::from(flags & FLAG_CF != 0));",
   "calculate_rm_imm![u16f; u8; self; i; |d:u16, s:u8| {\n            let result = (d as u32).wrapping_add(s as u32).wrapping_add(u32::from(flags & FLAG_CF != 0));", "C01.ring",
   "the defect repaired by 00651a2 re-introduced: the imm8 of ADC r/m16 is zero-extended", nth=2)
+
+m("c01-cdqe-switch-wrong-arm", "C01", "src/instructions/cdqe.rs", "let rax_value = self.reg_read_32(EAX)? as i32 as i64 as u64;",
+  "let eax = self.reg_read_32(EAX)?;\n        let rax_value = (match eax >> 30 {\n            0 => 0,\n            _ => 0xFFFF_FFFF_0000_0000u64,\n        }) | eax;", "C01.extend",
+  "CDQE written as a switch on the shifted value (the form of benign C07-2-q3) but testing bits 30 and 31 instead of the sign bit alone")
+
+m("c01-cqo-is-negative-inverted", "C01", "src/instructions/cqo.rs", "let rdx = if rax & 0x8000_0000_0000_0000 == 0 {",
+  "let rdx = if (rax as i64).is_negative() {", "C01.extend",
+  "CQO through i64::is_negative (the form of benign C01-3-q1) with the two fills swapped")
+
+m("c04-pop-r16-padded-load-wrong-width", "C04", "src/instructions/pop.rs", "let value = self.mem_read_16(rsp)?;",
+  "let bytes = self.mem_read_bytes(rsp, 4)?;\n        let mut qword = [0u8; 8];\n        qword[..bytes.len()].copy_from_slice(&bytes);\n        let value = u64::from_le_bytes(qword) & 0xFFFF;", "C04.slot",
+  "POP r16 through a constant-length byte load (the form of benign C09-3-q3) that fetches 4 bytes instead of 2: faults near the end of an area where the architectural load does not")
